@@ -1,6 +1,7 @@
 package chainsim
 
 import (
+	"strings"
 	"bytes"
 	"crypto/sha256"
 	"encoding/binary"
@@ -28,6 +29,7 @@ type KV struct{ K, V []byte }
 type AppState struct {
 	Raw map[string][]KV // store name -> sorted content
 
+	NonParamKeys int               // keys of the params store outside every registered subspace
 	PosSquatted bool               // a plain account at the pos module address (observation O1: the next fee distribution halts)
 	Balances   map[string]*big.Int // address hex -> stake-denom balance
 	Dust       map[string]*big.Int // address hex -> balance in the second denomination
@@ -264,7 +266,14 @@ func (a *App) Snapshot() (st *AppState, err error) {
 		}
 	}
 	for _, kv := range st.Raw["params"] {
-		st.Params[string(kv.K)] = string(kv.V)
+		// a parameter is a key of a registered subspace ("<subspace>/<name>"); anything else the application keeps in
+		// that store (a journal, a marker) is not a parameter and C17 says nothing about it
+		k := string(kv.K)
+		if strings.HasPrefix(k, "auth/") || strings.HasPrefix(k, "pos/") || strings.HasPrefix(k, "gov/") {
+			st.Params[k] = string(kv.V)
+		} else {
+			st.NonParamKeys++
+		}
 	}
 	qKeyLen := len(posTypes.KeyForUnstakingValidators(time.Unix(0, 0)))
 	for _, kv := range st.UnstakeQ {
